@@ -61,6 +61,19 @@ def _snap_scale(t):
     return t.detach().clone()
 
 
+class _Alias(torch.autograd.Function):
+    """Identity with a node of its own: same memory, same strides going forward, the very same gradient tensor going
+    back (no re-layout on either side, so torch picks the kernels it would pick without the observer)."""
+
+    @staticmethod
+    def forward(ctx, x):
+        return x.as_strided(x.size(), x.stride(), x.storage_offset())
+
+    @staticmethod
+    def backward(ctx, g):
+        return g
+
+
 def _obs_pre(d, name, mod, inp):
     r = Rec()
     r.name, r.mod, r.input = name, mod, inp[0] if len(inp) else None
@@ -72,7 +85,9 @@ def _obs_pre(d, name, mod, inp):
     if d.train_mode and type(r.input) is torch.Tensor and r.input.requires_grad:
         # a private alias of the incoming tensor, so that the hook sees the gradient that flows back
         # through *this* module only (the tensor itself may feed a skip connection as well)
-        alias = r.input.view_as(r.input)
+        # (as_strided keeps the strides bit for bit; view_as re-derives them, which turns a channels-last batch of one
+        # into another layout and makes torch pick another convolution kernel: the observer must stay transparent)
+        alias = _Alias.apply(r.input)
         alias.register_hook(lambda g, r=r: setattr(r, "g_in", g))
         r.input = alias
         r.g_in_local = True
